@@ -2,7 +2,7 @@
 import solvercheck, framework
 PID = "C04"
 MODULE = "MysticVerif.Props.C04"
-THEOREMS = ["MysticVerif.C04.de_history_antitone", "MysticVerif.C04.de_last_history_is_best", "MysticVerif.C04.de_one_record_per_step", "MysticVerif.C04.de_log_prefix", "MysticVerif.C04.de_evalmon_records", "MysticVerif.C04.de_evals_per_step", "MysticVerif.C04.nm_history"]
+THEOREMS = ["MysticVerif.C04.de_history_antitone", "MysticVerif.C04.de_last_history_is_best", "MysticVerif.C04.de_one_record_per_step", "MysticVerif.C04.de_log_prefix", "MysticVerif.C04.de_evalmon_records", "MysticVerif.C04.de_evals_per_step", "MysticVerif.C04.nm_history", "MysticVerif.C04.step_evals", "MysticVerif.C04.finalize_setLimits_keep_evals", "MysticVerif.C04.evals_eq_sum_of_ran"]
 
 
 def run_shard(pid, seed, shard, ncases, tier, extra):
